@@ -392,6 +392,10 @@ type gorObs struct {
 	Live   int    `json:"live"` // runtime.NumGoroutine() after they returned (settled)
 	Base   int    `json:"base"` // before the first render
 	NumCPU int    `json:"numcpu"`
+	// a render of the history that did not return within the watchdog, with a goroutine of the process blocked in a
+	// library frame on a channel / lock (both needed for a verdict: time alone never decides)
+	Hung    bool `json:"hung"`
+	Blocked bool `json:"blocked"`
 }
 
 // c12-goroutines: goroutines alive after k renders, for each renderer / entry point.
@@ -432,12 +436,78 @@ func c12Goroutines(args []string) error {
 		{"ToSVG/nodir", func(i int) {
 			render.ToSVG(ci, filepath.Join(dir, "nodir", "a.svg"), render.NewMarchingSquaresUniform(20))
 		}},
+		{"ToDXF/nodir", func(i int) {
+			render.ToDXF(ci, filepath.Join(dir, "nodir", "a.dxf"), render.NewMarchingSquaresQuadtree(20))
+		}},
+		{"ToDXF/devfull", func(i int) { render.ToDXF(ci, "/dev/full", render.NewMarchingSquaresUniform(40)) }},
+		{"ToSVG/devfull", func(i int) { render.ToSVG(ci, "/dev/full", render.NewMarchingSquaresQuadtree(40)) }},
+		{"To3MF/devfull", func(i int) { render.To3MF(sp, "/dev/full", render.NewMarchingCubesUniform(12)) }},
+		// histories: a failed render followed by a good one, over and over (state left behind by the failure -
+		// a lock still held, a goroutine still parked - shows in the NEXT render or in the count)
+		{"history/To3MF/devfull,good", func(i int) {
+			if i%2 == 1 {
+				render.To3MF(sp, "/dev/full", render.NewMarchingCubesOctree(8))
+			} else {
+				render.To3MF(sp, filepath.Join(dir, "h.3mf"), render.NewMarchingCubesOctree(8))
+			}
+		}},
+		{"history/To3MF/nodir,good", func(i int) {
+			if i%2 == 1 {
+				render.To3MF(sp, filepath.Join(dir, "nodir", "h.3mf"), render.NewMarchingCubesUniform(6))
+			} else {
+				render.To3MF(sp, filepath.Join(dir, "h.3mf"), render.NewMarchingCubesUniform(6))
+			}
+		}},
+		{"history/ToSTL/devfull,good", func(i int) {
+			if i%2 == 1 {
+				render.ToSTL(sp, "/dev/full", render.NewMarchingCubesOctree(16))
+			} else {
+				render.ToSTL(sp, filepath.Join(dir, "h.stl"), render.NewMarchingCubesUniform(8))
+			}
+		}},
+		{"history/ToDXF/devfull,nodir,good", func(i int) {
+			switch i % 3 {
+			case 1:
+				render.ToDXF(ci, "/dev/full", render.NewMarchingSquaresUniform(30))
+			case 2:
+				render.ToDXF(ci, filepath.Join(dir, "nodir", "h.dxf"), render.NewMarchingSquaresUniform(30))
+			default:
+				render.ToDXF(ci, filepath.Join(dir, "h.dxf"), render.NewMarchingSquaresQuadtree(30))
+			}
+		}},
+		{"history/ToSVG/devfull,nodir,good", func(i int) {
+			switch i % 3 {
+			case 1:
+				render.ToSVG(ci, "/dev/full", render.NewMarchingSquaresUniform(30))
+			case 2:
+				render.ToSVG(ci, filepath.Join(dir, "nodir", "h.svg"), render.NewMarchingSquaresUniform(30))
+			default:
+				render.ToSVG(ci, filepath.Join(dir, "h.svg"), render.NewMarchingSquaresQuadtree(30))
+			}
+		}},
 	}
 	marks := map[int]bool{1: true, 2: true, 4: true, 8: true, 16: true}
 	for _, kd := range kinds {
 		base := settle()
 		for k := 1; k <= 16; k++ {
-			kd.f(k)
+			done := make(chan struct{})
+			go func() {
+				defer close(done)
+				defer func() { recover() }() // a panic of the library is judged by the fault cases, not here
+				kd.f(k)
+			}()
+			select {
+			case <-done:
+			case <-time.After(20 * time.Second):
+				// the render has not returned: verdict only if a goroutine is blocked in the library
+				buf := make([]byte, 1<<22)
+				dump := string(buf[:runtime.Stack(buf, true)])
+				emit(gorObs{Ev: "gor", What: kd.name, K: k, Live: runtime.NumGoroutine(), Base: base, NumCPU: runtime.NumCPU(),
+					Hung: true, Blocked: blockedInLibrary(dump)})
+				flush()
+				// the process is in an unknown state now: stop here (the parent judges what was emitted)
+				return nil
+			}
 			if marks[k] {
 				emit(gorObs{Ev: "gor", What: kd.name, K: k, Live: settle(), Base: base, NumCPU: runtime.NumCPU()})
 			}
